@@ -131,6 +131,13 @@ def h_spline(ctx):
                 ctx.assume(v > 0)
     darg = tuple(data) if ncomp > 1 else data[0]
     warg = None if weights is None else (tuple(weights) if ncomp > 1 else weights[0])
+    if cfg.get("first"):
+        # history: the same estimator was fitted before, on another layout and other data
+        e0, n0 = _coords(cfg["first"], (len(LAYOUTS[cfg["first"]]),))
+        z = [ctx.reals("z%d" % c, len(LAYOUTS[cfg["first"]])) for c in range(ncomp)]
+        with warnings.catch_warnings():
+            warnings.simplefilter("ignore")
+            est.fit((e0, n0), tuple(z) if ncomp > 1 else z[0])
     with warnings.catch_warnings():
         warnings.simplefilter("ignore")
         est.fit((e, n), darg, warg)
@@ -281,6 +288,8 @@ def _cfg_spline(tier, seed):
         {"kind": "spline", "layout": "offset", "mindist": 0.5},
         {"kind": "vector", "layout": "generic3", "poisson": 0.5, "mindist": 1.0},
         {"kind": "vector", "layout": "generic4", "poisson": -0.5, "mindist": 0.1, "weights": True, "shape": (2, 2)},
+        {"kind": "spline", "layout": "generic4", "first": "offset"},
+        {"kind": "spline", "layout": "generic3", "first": "generic4"},
     ]
     if tier == "thorough":
         for lay in LAYOUTS:
